@@ -209,6 +209,7 @@ struct kase
   std::unique_ptr<std::basic_istream<Ch>> is;
   std::unique_ptr<fcppt::parse::detail::stream<Ch>> st;
   std::vector<position> saved;
+  unsigned route_{0U}; // constant: the route depends only on the operation and the number of saved positions (replays reproduce it)
 
   kase(string const &_text, long long const _fa)
   {
@@ -304,7 +305,43 @@ struct kase
       default:
         if (_o.j >= saved.size())
           return obs{6, 0, 0, 0, flags()};
-        return set_to0(position{saved[_o.j]});
+        {
+          // the position handed to set_position travels through every special member of fcppt::parse::position in turn
+          // (a position is a value: offset AND location must survive copy/move construction and copy/move assignment,
+          // also onto an object that held a different position before)
+          position const &want{saved[_o.j]};
+          position const &other{saved[(_o.j + 1U) % saved.size()]};
+          switch ((static_cast<unsigned>(_o.j) * 2U + static_cast<unsigned>(saved.size()) + route_) % 5U)
+          {
+          case 0:
+            return set_to0(position{want}); // copy construction
+          case 1:
+          {
+            position tmp{other};
+            tmp = want; // copy assignment from an lvalue over a different value
+            return set_to0(tmp);
+          }
+          case 2:
+          {
+            position tmp{other};
+            tmp = position{want}; // move assignment
+            return set_to0(tmp);
+          }
+          case 3:
+          {
+            position src{want};
+            position tmp{std::move(src)}; // move construction
+            return set_to0(tmp);
+          }
+          default:
+          {
+            position tmp{want};
+            position &self{tmp};
+            tmp = self; // self assignment
+            return set_to0(tmp);
+          }
+          }
+        }
       }
     }
     catch (fcppt::parse::detail::exception<Ch> const &)
